@@ -140,7 +140,7 @@ PROPS = {
                   'Pbc.Props.C11.success_implies_required_present', 'Pbc.Props.C11.missing_required_rejected',
                   'Pbc.Props.C11.only_required_fields_matter'],
         refine=['parse_tag_and_wiretype_spec', 'scan_length_prefixed_data_spec', 'scan_varint_spec'],
-        cases=[('req', 300, 5000, []), ('wire', 150, 2000, [])],
+        cases=[('req', 300, 5000, ['--big']), ('wire', 150, 2000, [])],
         oracle='c11',
     ),
     'C19': dict(
@@ -518,15 +518,25 @@ def main():
     res, tail = audit(obligations, built_mods) if built_mods else ({t: None for t in obligations}, '')
     for t, ax in res.items():
         if ax is None:
-            # not provable/visible now: say why if a module that should contain it failed
-            why = ['theorem not found by #print axioms (its module did not build or it no longer exists)']
+            # not visible now.  If its module failed because of OTHER, named theorems, this one is merely
+            # not audited in this run (recorded); if it is among the failing ones, or nothing explains the
+            # failure, it is undischarged.
             short = t.split('.')[-1]
+            why = None
+            excused = False
             for m, (bad, tl) in failed_detail.items():
                 if short in bad:
                     why = ['%s: %s' % (m, x) for x in bad[short][:2]]
+                elif bad and '?' not in bad and (t.startswith(m + '.') or (m == 'Pbc.Refine.Leaves' and t.startswith(R)) or
+                                                 (m == 'Pbc.Refine.BigEndian' and t.startswith('Pbc.Refine.BE.')) or
+                                                 (m.startswith('Pbc.Lemmas.') and t.startswith('Pbc.Lemmas.'))):
+                    excused = True
                 elif not bad:
-                    why.append('module %s did not build: %s' % (m, tl[-300:]))
-            undischarged[t] = why
+                    why = (why or []) + ['module %s did not build: %s' % (m, tl[-300:])]
+            if why is None and excused:
+                notes.append('%s not audited: its module failed on other theorems' % t)
+                continue
+            undischarged[t] = why or ['theorem not found by #print axioms (it no longer exists or its module was not built)']
             continue
         axioms_seen[t] = ax
         for a in ax:
@@ -570,6 +580,13 @@ def main():
                 for f in sorted(os.listdir(cdir)):
                     if f.endswith('.case') and (f.startswith(pid) or f.startswith('all')):
                         runs.append(('corpus:' + f, run_case_file(os.path.join(cdir, f), with_ref=P.get('ref', False))))
+            # the fixed input of every recorded finding of this property (known_findings.json): a failure there is
+            # reported as KNOWN-FINDING while it stays open, and as a VIOLATION again if a fixed one returns
+            fdir = os.path.join(VERIF, 'corpus', 'findings')
+            if os.path.isdir(fdir):
+                for f in sorted(os.listdir(fdir)):
+                    if f.endswith('_%s.case' % pid):
+                        runs.append(('finding:' + f.split('_')[0], run_case_file(os.path.join(fdir, f), with_ref=P.get('ref', False))))
             for kind, nq, nt, extra in P['cases']:
                 n = nq if tier == 'quick' else nt
                 seeds = [seed] if tier == 'quick' else [seed, seed + 1000, seed + 2000]
